@@ -7,7 +7,7 @@ From Coq Require Import List Bool String Ascii NArith ZArith Lia.
 From KV Require Import Eqb Str.
 From KV.Gen Require Import Tbinary.
 From KV.Model Require Import MBinary.
-From KV.Proofs Require Import PBinary.
+From KV.Proofs Require Import PBinary PBinaryHist.
 Import ListNotations.
 Local Open Scope list_scope.
 
@@ -398,6 +398,175 @@ Proof.
 Qed.
 Print Assumptions C03_write_replaces.
 
+(* ================================================================== 6. histories on one kapture root *)
+(* ANY history of writes and location queries (any feature kinds, types, names, orientations of pairs, in a
+   directory tree or in tar archives): afterwards every destination holds exactly the last array written to IT
+   -- never the array of another destination -- and what was never written is as before.  The location of a
+   step ([hist_loc]) has no store argument: it cannot depend on what was written earlier. *)
+Theorem C03_history_last_write_wins : forall cast st root steps f k,
+  fs_read k (hist_run cast st root steps f)
+  = match hist_last cast st root k steps with Some bs => Some bs | None => fs_read k f end.
+Proof. intros. apply hist_run_last. Qed.
+Print Assumptions C03_history_last_write_wins.
+
+(* a step that only asks for a location changes nothing *)
+Theorem C03_history_query_is_pure : forall cast st root f s,
+  h_write s = false -> hist_step cast st root f s = f.
+Proof. exact hist_query_noop. Qed.
+Print Assumptions C03_history_query_is_pure.
+
+(* a step of a matches history on normalised names (with the proviso of C03_matches_path_injective) *)
+Definition pair_step_ok (s : hstep) : Prop :=
+  h_api s = AMatches /\ good_rel (h_ftype s) = true /\ no_slashb (h_ftype s) = true /\
+  good_rel (h_a s) = true /\ good_rel (h_b s) = true /\ dirs_free_of Tbinary.pair_sep (h_a s) = true.
+
+(* matches, whole histories: after any sequence of matches writes (both orientations of a pair, pairs sharing
+   an image, repeated pairs, several feature types ...) the documented file <a>.overlapping/<b>.matches of the
+   pair (a, b) holds the last array written for the pair (a, b) of that type -- selected by the NAMES -- and
+   nothing if that ordered pair was never written; in particular writes of (b, a) never touch it. *)
+Theorem C03_history_pairs : forall cast root steps ftype a b,
+  good_root root = true -> Forall pair_step_ok steps ->
+  good_rel ftype = true -> no_slashb ftype = true -> good_rel a = true -> good_rel b = true ->
+  dirs_free_of Tbinary.pair_sep a = true ->
+  fs_read (matches_path root ftype a b) (hist_run cast SFile root steps [])
+  = hist_last_by cast (same_pair ftype a b) steps.
+Proof.
+  intros cast root steps ftype a b R F T S A B D.
+  rewrite hist_run_last. unfold hist_last.
+  rewrite (hist_last_by_ext cast _ (same_pair ftype a b)).
+  - destruct (hist_last_by cast (same_pair ftype a b) steps); reflexivity.
+  - intros s I. rewrite Forall_forall in F. destruct (F s I) as [Ea [T' [S' [A' [B' D']]]]].
+    unfold hist_key, hist_loc. rewrite Ea. unfold same_pair.
+    destruct (String.eqb_spec (matches_path root ftype a b) (matches_path root (h_ftype s) (h_a s) (h_b s))) as [E|N].
+    + apply C03_matches_path_injective in E; auto. destruct E as [-> [-> ->]].
+      rewrite !String.eqb_refl. reflexivity.
+    + destruct (String.eqb_spec ftype (h_ftype s)) as [->|]; [|reflexivity].
+      destruct (String.eqb_spec a (h_a s)) as [->|]; [|reflexivity].
+      destruct (String.eqb_spec b (h_b s)) as [->|]; [|reflexivity].
+      exfalso. apply N. reflexivity.
+Qed.
+Print Assumptions C03_history_pairs.
+
+(* ... and end to end: whatever stands at the documented location of the pair (a, b) after ANY matches history is
+   the dump of an array that a step of the history wrote for that very ordered pair and type (no later step wrote
+   that pair again), and image_matches_from_file gives that array back: element type, shape and bits *)
+Theorem C03_history_pairs_read_back : forall cast root steps ftype a b bs st rd_d rd_dsize rd_w rd_h,
+  good_root root = true -> Forall pair_step_ok steps ->
+  good_rel ftype = true -> no_slashb ftype = true -> good_rel a = true -> good_rel b = true ->
+  dirs_free_of Tbinary.pair_sep a = true ->
+  fs_read (matches_path root ftype a b) (hist_run cast SFile root steps []) = Some bs ->
+  exists pre s post, steps = (pre ++ s :: post)%list /\ h_write s = true /\
+    h_ftype s = ftype /\ h_a s = a /\ h_b s = b /\ bs = dump (h_mem s) /\
+    hist_last_by cast (same_pair ftype a b) post = None /\
+    forall r, wf_mem (h_mem s) = true -> m_shape (h_mem s) = [r; 3%N] ->
+      read_api AMatches st rd_d rd_dsize rd_w rd_h bs
+      = ROk {| a_dtype := F64; a_rows := r; a_cols := 3%N; a_elems := m_elems (h_mem s) |}.
+Proof.
+  intros cast root steps ftype a b bs st rd_d rd_dsize rd_w rd_h R F T S A B D H.
+  rewrite C03_history_pairs in H by assumption.
+  destruct (hist_last_by_some _ _ _ _ H) as [pre [s [post [E [W [P [Wr L]]]]]]].
+  exists pre, s, post. split; [exact E|]. split; [exact W|].
+  unfold same_pair in P. apply andb_true_iff in P. destruct P as [P P3]. apply andb_true_iff in P. destruct P as [P1 P2].
+  apply String.eqb_eq in P1, P2, P3.
+  rewrite Forall_forall in F. assert (I : In s steps) by (rewrite E; apply in_or_app; right; left; reflexivity).
+  destruct (F s I) as [Ea _]. rewrite Ea in Wr.
+  destruct (C03_matches_writer_gate _ _ _ Wr) as [Dt [Bg [Eb _]]].
+  repeat split; auto.
+  intros r Wf Sh. rewrite Eb. apply (C03_matches_roundtrip cast st (h_mem s) r); assumption.
+Qed.
+Print Assumptions C03_history_pairs_read_back.
+
+(* the two orientations of a pair: whatever happened before, after writing (b, a) then (a, b) each pair has its
+   own file holding its own array *)
+Theorem C03_swapped_pair_own_files : forall cast root ftype a b m1 m2 pre f,
+  good_root root = true -> good_rel ftype = true -> no_slashb ftype = true ->
+  good_rel a = true -> good_rel b = true -> a <> b ->
+  dirs_free_of Tbinary.pair_sep a = true -> dirs_free_of Tbinary.pair_sep b = true ->
+  write_api cast AMatches m1 = Written (dump m1) -> write_api cast AMatches m2 = Written (dump m2) ->
+  let w x y m := {| h_write := true; h_api := AMatches; h_ftype := ftype; h_a := x; h_b := y; h_mem := m |} in
+  let f' := hist_run cast SFile root (pre ++ [w b a m1; w a b m2]) f in
+  matches_path root ftype a b <> matches_path root ftype b a
+  /\ fs_read (matches_path root ftype a b) f' = Some (dump m2)
+  /\ fs_read (matches_path root ftype b a) f' = Some (dump m1).
+Proof.
+  intros cast root ftype a b m1 m2 pre f R T S A B N Da Db W1 W2 w f'.
+  assert (NE : matches_path root ftype a b <> matches_path root ftype b a).
+  { intros E. apply C03_matches_path_injective in E; auto. destruct E as [_ [E _]]. auto. }
+  split; [exact NE|]. subst f'. rewrite hist_run_app.
+  unfold hist_run. cbn [fold_left]. unfold hist_step, w. cbn [h_write h_api h_mem h_ftype h_a h_b].
+  rewrite W1, W2. unfold hist_key, hist_loc. cbn [h_api h_ftype h_a h_b]. split.
+  - apply fs_read_same.
+  - rewrite fs_read_other by (intros E; apply NE; symmetry; exact E). apply fs_read_same.
+Qed.
+Print Assumptions C03_swapped_pair_own_files.
+
+(* all four feature kinds together, whole histories on a directory tree: a step on normalised names *)
+Definition step_ok (s : hstep) : Prop :=
+  In (kind_of_api (h_api s)) kinds /\ good_rel (h_ftype s) = true /\ no_slashb (h_ftype s) = true /\
+  good_rel (h_a s) = true /\
+  (h_api s = AMatches -> good_rel (h_b s) = true /\ dirs_free_of Tbinary.pair_sep (h_a s) = true).
+(* same destination, decided on the NAMES: kind, feature type, image (and second image for matches) *)
+Definition same_dest (t s : hstep) : bool :=
+  String.eqb (kind_of_api (h_api t)) (kind_of_api (h_api s)) && String.eqb (h_ftype t) (h_ftype s)
+  && String.eqb (h_a t) (h_a s)
+  && match h_api t with AMatches => String.eqb (h_b t) (h_b s) | _ => true end.
+
+Lemma hist_loc_feature : forall root s, step_ok s ->
+  exists rel, good_rel rel = true /\
+    hist_loc SFile root s = feature_path (kind_of_api (h_api s)) root (h_ftype s) rel /\
+    (h_api s <> AMatches -> rel = h_a s).
+Proof.
+  intros root s [K [T [S [A M]]]].
+  destruct (h_api s) eqn:E; cbn in K;
+    try (exists (h_a s); unfold hist_loc; rewrite E; repeat split; auto; fail).
+  destruct (M eq_refl) as [B D]. destruct tables_good as [_ [Gs _]].
+    destruct (matches_file_gen_spec Tbinary.pair_sep (h_a s) (h_b s) Gs A B) as [E1 G1].
+    exists (matches_file (h_a s) (h_b s)). unfold hist_loc. rewrite E.
+    split; [unfold matches_file; rewrite E1; exact G1|]. split; [reflexivity|]. intros N. exfalso. apply N. reflexivity.
+Qed.
+
+(* after ANY history of keypoints / descriptors / global-feature / matches writes on normalised names in one
+   directory tree, the documented file of a destination holds the last array written for exactly that kind,
+   type and image name(s) -- whatever else the tree holds *)
+Theorem C03_history_features : forall cast root steps t,
+  good_root root = true -> Forall step_ok steps -> step_ok t ->
+  fs_read (hist_loc SFile root t) (hist_run cast SFile root steps [])
+  = hist_last_by cast (same_dest t) steps.
+Proof.
+  intros cast root steps t R F Ht.
+  rewrite hist_run_last. unfold hist_last.
+  rewrite (hist_last_by_ext cast _ (same_dest t)).
+  - destruct (hist_last_by cast (same_dest t) steps); reflexivity.
+  - intros s I. rewrite Forall_forall in F. specialize (F s I).
+    change (hist_key SFile root s) with (hist_loc SFile root s).
+    destruct (hist_loc_feature root t Ht) as [rt [Grt [Et Pt]]].
+    destruct (hist_loc_feature root s F) as [rs [Grs [Es Ps]]].
+    destruct Ht as [Kt [Tt [St [At Mt]]]]. destruct F as [Ks [Ts [Ss [As Ms]]]].
+    unfold same_dest.
+    destruct (String.eqb_spec (kind_of_api (h_api t)) (kind_of_api (h_api s))) as [EK|NK].
+    + (* same kind *)
+      assert (EA : h_api t = h_api s).
+      { destruct (h_api t), (h_api s); cbn in EK; try discriminate EK; reflexivity. }
+      destruct (String.eqb_spec (hist_loc SFile root t) (hist_loc SFile root s)) as [E|N].
+      * destruct (h_api t) eqn:At'; symmetry in EA.
+        all: try (rewrite Et, Es, <- EK in E; apply C03_feature_path_injective in E; auto;
+                  destruct E as [E1 E2]; rewrite Pt, Ps in E2 by (try rewrite EA; discriminate);
+                  rewrite E1, E2, !String.eqb_refl; reflexivity).
+        destruct (Mt eq_refl) as [Bt Dt]. destruct (Ms EA) as [Bs Ds].
+        unfold hist_loc in E. rewrite At', EA in E.
+        apply C03_matches_path_injective in E; auto. destruct E as [E1 [E2 E3]].
+        rewrite E1, E2, E3, !String.eqb_refl. reflexivity.
+      * cbn [andb].
+        destruct (String.eqb_spec (h_ftype t) (h_ftype s)) as [E1|]; [|reflexivity].
+        destruct (String.eqb_spec (h_a t) (h_a s)) as [E2|]; [|reflexivity]. cbn [andb].
+        assert (P : forall x : bool, (x = true -> False) -> false = x) by (intros [|] Hx; [exfalso; auto | reflexivity]).
+        apply P. intros Hm. apply N. unfold hist_loc. rewrite <- EA.
+        destruct (h_api t); rewrite ?E1, ?E2; try reflexivity.
+        apply String.eqb_eq in Hm. rewrite Hm. reflexivity.
+    + cbn [andb]. apply String.eqb_neq. rewrite Et, Es. apply C03_kinds_disjoint; auto.
+Qed.
+Print Assumptions C03_history_features.
+
 (* ================================================================== non-vacuity and the repaired defect *)
 Local Open Scope N_scope.
 
@@ -453,4 +622,43 @@ Lemma C03_inplace_swap_refuted :
 Proof.
   exists {| m_dtype := F32; m_shape := [1; 2]; m_elems := [1065353216; 1073741824]; m_big := true; m_layout := LContig |}.
   split; [vm_compute; reflexivity|]. vm_compute. repeat split; try reflexivity; intros E; discriminate E.
+Qed.
+
+(* a location that depends on the store ("a pair is not oriented": return the existing file of (b, a) when the
+   file of (a, b) is missing) is excluded by C03_history_pairs / C03_swapped_pair_own_files: under that variant,
+   after writing (b, a) then (a, b) nothing is at the documented location of (a, b), and the file of (b, a)
+   holds the array of (a, b) *)
+Lemma C03_store_dependent_location_refuted :
+  exists m1 m2,
+    let w x y m := {| h_write := true; h_api := AMatches; h_ftype := "SIFT"%string; h_a := x; h_b := y; h_mem := m |} in
+    let steps := [w "b.jpg"%string "a.jpg"%string m1; w "a.jpg"%string "b.jpg"%string m2] in
+    let f := fold_left (hist_step_fallback "R") steps [] in
+    wf_mem m1 = true /\ wf_mem m2 = true /\ dump m1 <> dump m2 /\
+    fs_read (matches_path "R" "SIFT" "a.jpg" "b.jpg") f = None /\
+    fs_read (matches_path "R" "SIFT" "b.jpg" "a.jpg") f = Some (dump m2) /\
+    fs_read (matches_path "R" "SIFT" "a.jpg" "b.jpg") (hist_run (fun _ n => n) SFile "R" steps []) = Some (dump m2) /\
+    fs_read (matches_path "R" "SIFT" "b.jpg" "a.jpg") (hist_run (fun _ n => n) SFile "R" steps []) = Some (dump m1).
+Proof.
+  exists {| m_dtype := F64; m_shape := [1; 3]; m_elems := [0; 4607182418800017408; 4602678819172646912];
+            m_big := false; m_layout := LContig |}.
+  exists {| m_dtype := F64; m_shape := [0; 3]; m_elems := []; m_big := false; m_layout := LContig |}.
+  vm_compute. repeat split; try reflexivity. intros E; discriminate E.
+Qed.
+
+(* the hypotheses of the history theorems are satisfiable: both orientations of a pair and a keypoints file *)
+Example C03_history_example :
+  let m := {| m_dtype := F64; m_shape := [1; 3]; m_elems := [0; 4607182418800017408; 4602678819172646912];
+              m_big := false; m_layout := LContig |} in
+  let w k x y := {| h_write := true; h_api := k; h_ftype := "SIFT"%string; h_a := x; h_b := y; h_mem := m |} in
+  Forall step_ok [w AMatches "b.jpg" "a/1.jpg"; w AMatches "a/1.jpg" "b.jpg"; w AKeypoints "a/1.jpg" ""]%string
+  /\ Forall pair_step_ok [w AMatches "b.jpg" "a/1.jpg"; w AMatches "a/1.jpg" "b.jpg"]%string
+  /\ good_root "R" = true.
+Proof.
+  cbv zeta. split; [|split; [|reflexivity]].
+  - repeat (apply Forall_cons || apply Forall_nil);
+      (split; [apply memb_In; vm_compute; reflexivity|]);
+      (split; [vm_compute; reflexivity|]); (split; [vm_compute; reflexivity|]); (split; [vm_compute; reflexivity|]);
+      cbn [h_api]; intros E; try discriminate E; split; vm_compute; reflexivity.
+  - repeat (apply Forall_cons || apply Forall_nil);
+      (split; [reflexivity|]); repeat split; vm_compute; reflexivity.
 Qed.
